@@ -179,6 +179,10 @@ def window_when_(
                 window.on_completed()
                 window = Subject()
                 observer.on_next(add_ref(window, r))
+                if d.is_disposed:
+                    # the subscriber unsubscribed (outer subscription and every
+                    # window) inside on_next: no closing mapper call on its behalf
+                    return
                 create_window_on_completed()
 
             m1 = SingleAssignmentDisposable()
